@@ -18,8 +18,8 @@ func init() { register("C14", "other", checkC14) }
 func checkC14(c *Ctx) {
 	r := c.Rep
 	p := c.Prog
-	r.Explain = "The numeric content of this property (exact mantissa x 2^exponent decoding, largest-representable encoding, monotonicity, saturation) is IEEE-754 arithmetic and is NOT decided: no engine here models floating point. Its integer/structural clauses are: NEG - every nil-error return of MarshalTo is dominated by the false edge of a test `bitrate < 0` on the (clamped) receiver bitrate (SSA dominator conditions); EXP - at every nil-error return the exponent that was shifted into octet 17 is entailed below 64 (numeric engine; the conversion byte(exp<<2) is C08's obligation as well); PACK - the mantissa bits OR-ed into octet 17 next to the exponent are entailed <= 3, using the one piece of floating-point reasoning the engine has: an upper bound of a float value learned from a comparison with a constant on a branch (here the exit of `for bitrate >= 1<<18`), carried through float conversions, math.Floor and the conversion to an integer (NaN is outside the model); CNT-ENC - octet 16 of the encoding is the low 8 bits of len(SSRCs) (bit-provenance map) and a nil-error return entails len(SSRCs) <= 255; CNT-DEC - at every nil-error return of Unmarshal the number of decoded SSRCs equals the count octet buf[16] and the frame length 20 + 4*count (numeric engine)."
-	r.RuleText = "C14-NEG, C14-EXP, C14-PACK, C14-CNT-ENC, C14-CNT-DEC."
+	r.Explain = "The numeric content of this property (exact mantissa x 2^exponent decoding, largest-representable encoding, monotonicity, saturation) is IEEE-754 arithmetic and is NOT decided: no engine here models floating point. Its integer/structural clauses are: NEG - every nil-error return of MarshalTo is dominated by the false edge of a test `bitrate < 0` on the (clamped) receiver bitrate (SSA dominator conditions); EXP - at every nil-error return the exponent that was shifted into octet 17 is entailed below 64 (numeric engine; the conversion byte(exp<<2) is C08's obligation as well); PACK - the mantissa bits OR-ed into octet 17 next to the exponent are entailed <= 3, using the one piece of floating-point reasoning the engine has: an upper bound of a float value learned from a comparison with a constant on a branch (here the exit of `for bitrate >= 1<<18`), carried through float conversions, math.Floor and the conversion to an integer (NaN is outside the model); NORM - on the decode side the loop that left-normalises the mantissa (doubling it, decrementing the exponent) can be left only when bit 23, the implicit leading bit, is set (CFG exit edges); CNT-ENC - octet 16 of the encoding is the low 8 bits of len(SSRCs) (bit-provenance map) and a nil-error return entails len(SSRCs) <= 255; CNT-DEC - at every nil-error return of Unmarshal the number of decoded SSRCs equals the count octet buf[16] and the frame length 20 + 4*count (numeric engine)."
+	r.RuleText = "C14-NEG, C14-EXP, C14-PACK, C14-NORM, C14-CNT-ENC, C14-CNT-DEC."
 	r.Trusted = []string{"go/ssa", "checker/num", "checker/bits"}
 	r.Assume = []string{"decoder receiver is a zero value"}
 	r.NotCov("decode(mantissa, exponent) = mantissa x 2^exponent for all 2^24 pairs; encode(x) = largest representable value <= x; monotonicity; saturation at 0x3FFFF x 2^63; the mantissa/exponent bit packing of octets 17..19 — all float32 arithmetic (math.Floor, division by two, Float32frombits)")
@@ -206,6 +206,62 @@ func checkC14(c *Ctx) {
 	}
 	r.Check(cntOK && n > 0 && okCnt == n, "C14-CNT-ENC", "ReceiverEstimatedMaximumBitrate.Marshal/count-octet-is-len(SSRCs)", p.Pos(mar.Pos()),
 		fmt.Sprintf("octet 16 = low 8 bits of len(SSRCs) and len(SSRCs) <= 255 entailed at all %d nil-error return(s)", n), why)
+
+	// ---- NORM: the decode-side normalisation loop (mantissa doubled, exponent decremented) is left only
+	// when the implicit leading bit (bit 23) of the mantissa is set
+	{
+		loops := loopBlocksWithHeaders(un)
+		var hdr *ssa.BasicBlock
+		for _, b := range un.Blocks {
+			for _, in := range b.Instrs {
+				bo, ok := in.(*ssa.BinOp)
+				if !ok || loops[b] == nil {
+					continue
+				}
+				if (bo.Op == token.MUL && isConstInt(bo.Y, 2) || bo.Op == token.SHL && isConstInt(bo.Y, 1)) && strings.Contains(bo.Type().String(), "uint32") {
+					hdr = loops[b]
+				}
+			}
+		}
+		ok := hdr != nil
+		why := "no loop doubling a uint32 mantissa found in Unmarshal"
+		nexit := 0
+		if hdr != nil {
+			for b, h := range loops {
+				if h != hdr {
+					continue
+				}
+				for _, sc := range b.Succs {
+					if loops[sc] == hdr {
+						continue
+					}
+					nexit++
+					iff, isIf := b.Instrs[len(b.Instrs)-1].(*ssa.If)
+					good := false
+					if isIf {
+						if cmp, isCmp := iff.Cond.(*ssa.BinOp); isCmp && (cmp.Op == token.EQL || cmp.Op == token.NEQ) && isConstInt(cmp.Y, 0) {
+							if and, isAnd := cmp.X.(*ssa.BinOp); isAnd && and.Op == token.AND && (isConstInt(and.Y, 1<<23) || isConstInt(and.X, 1<<23)) {
+								// leaving on the side where the bit is set
+								exitOnTrue := b.Succs[0] == sc
+								bitSetOnTrue := cmp.Op == token.NEQ
+								good = exitOnTrue == bitSetOnTrue
+							}
+						}
+					}
+					if !good {
+						ok = false
+						why = "the normalisation loop can be left at " + p.Pos(b.Instrs[len(b.Instrs)-1].Pos()) + " without bit 23 of the mantissa being set"
+					}
+				}
+			}
+			if nexit == 0 {
+				ok = false
+				why = "the normalisation loop has no exit"
+			}
+		}
+		r.Check(ok, "C14-NORM", "(*ReceiverEstimatedMaximumBitrate).Unmarshal/normalisation-runs-until-leading-bit", p.Pos(un.Pos()),
+			fmt.Sprintf("the loop that doubles the mantissa has %d exit edge(s), each taken only when mantissa&(1<<23) != 0", nexit), why)
+	}
 
 	// ---- CNT-DEC
 	var numV ssa.Value // int(buf[16])
